@@ -1068,9 +1068,10 @@ func exec(e *lp.Exec) {
 			if s.g.VerifConnAt(ci.fd) != ci.c {
 				ret = "gone"
 			} else {
-				// the read task can be held only where it runs beside the poller and further events are delivered to the
-				// poller meanwhile (not with EPOLLONESHOT: the descriptor is disarmed while the task runs)
-				busy := s.async && s.mode != "os"
+				// the read task can be held only where there is one (AsyncReadInPoller is effective with EPOLLET only) and
+				// further events are delivered to the poller meanwhile (not with EPOLLONESHOT: the descriptor is disarmed
+				// while the task runs)
+				busy := s.async && s.mode == "et"
 				if busy {
 					s.mu.Lock()
 					ci.hold, ci.inData = make(chan struct{}), make(chan struct{}, 1)
